@@ -194,7 +194,7 @@ func (g *gen) lifecycleScenario(w *world, steps int) {
 		p := ps[g.r.Intn(2)]
 		switch k := g.r.Intn(30); {
 		case k < 10:
-			ll.sendText(p, g.cleanText())
+			ll.sendText(p, g.lcText())
 		case k < 18:
 			ll.deliverOne(g.r.Intn(2) == 0)
 		case k < 21:
@@ -264,7 +264,7 @@ func (g *gen) lifecycleMotifKey(w *world, seq []int, reqEnc bool, version int) s
 		}
 		switch op {
 		case 0:
-			ll.sendText(a, g.cleanText())
+			ll.sendText(a, g.lcText())
 		case 1:
 			ll.call(a, func() ([]otr3.ValidMessage, []byte) {
 				plain, ts, _, _ := w.recv(a, []byte("?OTR Error: unreadable"))
@@ -277,7 +277,7 @@ func (g *gen) lifecycleMotifKey(w *world, seq []int, reqEnc bool, version int) s
 		case 4:
 			ll.settle()
 		case 5:
-			ll.sendText(b, g.cleanText())
+			ll.sendText(b, g.lcText())
 		case 6:
 			w.tick(120)
 		}
@@ -287,7 +287,7 @@ func (g *gen) lifecycleMotifKey(w *world, seq []int, reqEnc bool, version int) s
 	if w.dead {
 		key = ""
 	}
-	ll.sendText(a, g.cleanText())
+	ll.sendText(a, g.lcText())
 	ll.settle()
 	defer func() {}()
 	for _, s := range []*lcSide{ll.sa, ll.sb} {
@@ -416,4 +416,14 @@ func init() {
 		olog.export(extra)
 		return g.dist
 	}
+}
+
+// texts for lifecycle histories: mostly ordinary, sometimes starting like an OTR message (a query, an
+// error, an encoded message, a fragment) — what the user types is user text whatever it looks like
+func (g *gen) lcText() []byte {
+	if g.r.Intn(7) != 0 {
+		return g.cleanText()
+	}
+	pre := []string{"?OTRv3? ", "?OTRv23? ", "?OTR? ", "?OTR?v2? ", "?OTRv2? ", "?OTR Error: ", "?OTR:AAMD", "?OTR|00000100|00000101,00001,00002,", "?OTR,00001,00002,", "?OTR "}[g.r.Intn(10)]
+	return append([]byte(pre), g.cleanText()...)
 }
